@@ -158,7 +158,9 @@ class C04(common.Prop):
     RULE = ("reference-encoded v0.0 files (0..3 people per frame, varying; first/other people with distinct values; confidences incl. "
             "0, -0, negative, NaN, inf; 2-D and 3-D formats) and v0.1 files (1..3 people, 1..6 points, D 1..3, frame counts 1..40 and on both "
             "sides of 65535 with one point), each read from bytes and from a stream, under three memo states, with no window, frame windows "
-            "in every relation to the 10 340-byte prefetch, and time windows; ~12% structurally invalid legacy files (mixed format lengths, "
+            "in every relation to the 10 340-byte prefetch, time windows, one bound by frame and the other by time, starts at / beyond "
+            "the last frame by frame and by time, a frame and a time bound for the same end, negative and inverted bounds (both layouts, "
+            "both sources); ~12% structurally invalid legacy files (mixed format lengths, "
             "1-letter formats, no components, zero frames, zero people/points for v0.1); version words around 0, 0.1, 0.2 and far from "
             "them; every decodable case is also rewritten (Pose.write) and read back; non-trivial = legacy file that decodes, or a version "
             "that must be refused; distinct by content hash")
@@ -227,11 +229,18 @@ class C04(common.Prop):
         if edge == "none" and rng.random() < 0.04:
             edge = "zero-frames"
             F = 0
-        if edge == "none" and rng.random() < 0.04:
-            F = rng.choice([300, 700])      # larger than the prefetch
+        # sometimes larger than the 10 340-byte prefetch: frames are added until the body passes a size between 11 and 16 KB (at most
+        # 700 frames).  Not larger: the extracted stream interpreter keeps the fetched bytes in a list and is quadratic in the file size
+        target = None
+        if edge == "none" and rng.random() < 0.08:
+            F, target = 700, rng.randrange(11000, 16000)
         frames = []
+        size = 0
+        per_person = 2 + 4 * sum(len(c["points"]) * len(c["format"]) for c in comps)
         pattern = rng.choice(["vary", "vary", "all-empty", "one-each", "crowd"])
         for f in range(F):
+            if target is not None and size > target:
+                break
             n = {"vary": rng.choice([0, 1, 1, 2, 3]), "all-empty": 0, "one-each": 1, "crowd": 3}[pattern]
             people = []
             for k in range(n):
@@ -241,6 +250,7 @@ class C04(common.Prop):
                     cvals.append([[[self.word(rng) for _ in range(max(0, L - 1))], self.word(rng, conf=True)] for _ in c["points"]])
                 people.append([rng.choice([0, 1, k, -1, 32767, -32768, 7]), cvals])
             frames.append(people)
+            size += 2 + n * per_person
         # mostly +0.0 / -0.0; sometimes a tiny non-zero float (|v| < 0.0005): NOT version 0, must be refused even though the
         # body parses in the v0.0 layout
         ver = rng.choice([0, 0, 0, 0x80000000]) if rng.random() < 0.9 else \
@@ -308,29 +318,59 @@ class C04(common.Prop):
                 "data": [[f32w(float(i + 4 * f)) for i in range(4)] for f in range(F)], "conf": [[f32w(1.0), 0] for f in range(F)], "edge": "none"}
 
     def gen_args(self, rng, F, fps, per_frame, hdr_end):
-        kind = rng.choice(["none"] * 4 + ["frames"] * 6 + ["time"] * 2 + ["beyond"])
-        if kind == "none" or F == 0:
+        """window arguments for a legacy file of F frames: frame bounds, time bounds, one of each, a frame and a time bound
+        for the same end (refused), starts at / beyond the last frame by frame and by time (refused), and odd ones
+        (negative bounds, an end before the start) that only the model/implementation correspondence looks at"""
+        kind = rng.choice(["none"] * 4 + ["frames"] * 6 + ["time"] * 4 + ["mixed"] * 2 + ["beyond"] * 2 + ["beyond-time"] * 2 + ["conflict"] * 2 + ["odd"])
+        if kind == "none":
             return "none", {}
+        f = max(fps, 1)
+
+        def t_start(k):      # a time whose floor(t / 1000 * fps) is frame k (fps >= 1)
+            return int(math.ceil(k * 1000.0 / f))
+
+        def t_end(k):        # a time whose ceil(t / 1000 * fps) is frame k (fps >= 1)
+            return int(math.floor(k * 1000.0 / f))
+        if F == 0:
+            # a file without frames: an end bound or a zero start still give the empty pose, a positive start is beyond the end
+            a = rng.choice([{"end_frame": 3}, {"start_frame": 0}, {"end_time": 100}, {"start_time": 0, "end_frame": 0}, {"start_frame": 1},
+                            {"start_time": 5000}, {"start_frame": 0, "start_time": 0}, {"end_frame": 0}])
+            return "zero-frames-window", a
         pf_frame = max(0, (PREFETCH_DEFAULT - hdr_end - 6) // max(1, per_frame))
         cands = sorted(set([0, 1, 2, F // 2, F - 1, F, pf_frame - 1, pf_frame, pf_frame + 1, rng.randrange(0, F + 1), rng.randrange(0, F + 1)]))
         cands = [c for c in cands if 0 <= c <= F + 3]
-        if kind == "frames":
-            s = rng.choice([None] + [c for c in cands if c < F])
+        starts = [c for c in cands if c < F]
+        if kind in ("frames", "time", "mixed"):
+            s = rng.choice([None] + starts)
             e = rng.choice([None] + [c for c in cands + [F + 1, F + 1000] if (s or 0) <= c])
             if s is None and e is None:
-                s = rng.choice([c for c in cands if c < F])
-            a = {"start_frame": s, "end_frame": e}
-        elif kind == "time":
-            f = max(fps, 1)
-            s = rng.choice([None] + [c for c in cands if c < F])
-            e = rng.choice([None] + [c for c in cands + [F + 2] if (s or 0) <= c])
-            if s is None and e is None:
-                e = rng.choice(cands)
-            a = {"start_time": None if s is None else int(math.ceil(s * 1000.0 / f)),
-                 "end_time": None if e is None else int(math.floor(e * 1000.0 / f))}
+                if rng.random() < 0.5:
+                    s = rng.choice(starts)
+                else:
+                    e = rng.choice(cands)
+            st, et = ("frame", "frame") if kind == "frames" else ("time", "time") if kind == "time" else rng.choice([("frame", "time"), ("time", "frame")])
+            a = {}
+            if s is not None:
+                a["start_" + st] = s if st == "frame" else t_start(s)
+            if e is not None:
+                a["end_" + et] = e if et == "frame" else t_end(e)
+        elif kind == "beyond":
+            a = rng.choice([{"start_frame": F}, {"start_frame": F + 5, "end_frame": F + 9}, {"start_frame": F + 1, "end_time": t_end(F + 2)},
+                            {"start_frame": 65536 + F}, {"start_frame": F, "end_frame": 0}])
+        elif kind == "beyond-time":
+            a = rng.choice([{"start_time": t_start(F)}, {"start_time": t_start(F + 3) + 1, "end_time": t_end(F + 9)},
+                            {"start_time": t_start(F) + rng.randrange(0, 2000), "end_frame": F + 2}])
+        elif kind == "conflict":
+            s, e = rng.choice(starts), rng.choice(cands)
+            a = rng.choice([{"start_frame": s, "start_time": t_start(s)}, {"end_frame": e, "end_time": t_end(e)},
+                            {"start_frame": s, "start_time": 0, "end_frame": F}, {"start_time": t_start(s), "end_frame": e, "end_time": 10 ** 6},
+                            {"start_frame": F + 7, "start_time": t_start(F + 7)}, {"start_frame": 0, "start_time": 0, "end_frame": 0, "end_time": 0}])
         else:
-            a = rng.choice([{"start_frame": F}, {"start_frame": F + 5, "end_frame": F + 9}])
-        return kind, {k: v for k, v in a.items() if v is not None}
+            a = rng.choice([{"start_frame": -1}, {"start_frame": -3, "end_frame": F}, {"start_time": -40}, {"end_frame": -1}, {"end_time": -1000},
+                            {"start_frame": F - 1, "end_frame": 0}, {"start_frame": min(1, F - 1), "end_frame": min(1, F - 1)},
+                            {"end_frame": 0}, {"end_time": 0}, {"start_time": rng.randrange(0, 3000), "end_time": rng.randrange(0, 3000)},
+                            {"start_frame": rng.randrange(0, F + 2), "end_frame": rng.randrange(0, F + 2)}])
+        return kind, a
 
     def finish(self, rng, case):
         file, meta = self.encode(case)
@@ -592,8 +632,8 @@ class C04(common.Prop):
         if win == "beyond":
             return r[0] == "err"
         s0, e0 = win
-        if e0 <= s0:
-            return False
+        if e0 < s0 or (e0 == s0 and len(v["data"]) > 0):
+            return False         # (the whole of a file without frames is the empty window [0, 0))
         if r[0] != "ok":
             return False
         exp = dump_of_view(case, v, s0, e0)
